@@ -143,6 +143,21 @@ class Env:
         return False
 
 
+def case_size(case):
+    """Ordering of violating cases: fewer / simpler options first."""
+    n = 0
+    for k, v in case.items():
+        if k == "opts":
+            n += case_size(v)
+        elif k == "handlers":
+            n += 100 * len(v) + sum(v)
+        elif k in ("part", "kind", "via", "path"):
+            continue
+        elif v is not None:
+            n += 10 + len(str(v))
+    return n
+
+
 # ----------------------------------------------------------------------------
 # (a) levels
 
@@ -316,12 +331,12 @@ def check_b(case, env, acc):
             acc.cls("b:refused:" + cfg["class"])
             if verdict == R.ACCEPT:
                 acc.violation("refused-but-documented", case, cfg, exp,
-                              tags={"kind": "refused-but-documented", "clause": clause, "part": "b"})
+                              tags={"kind": "refused-but-documented", "clause": clause, "part": "b"}, size=case_size(case))
             return
         if verdict == R.REFUSE:
             acc.cls("b:accepted-wrongly")
             acc.violation("accepted-but-must-be-refused", case, "accepted", "refused: " + clause,
-                          tags={"kind": "accepted-but-must-be-refused", "clause": clause, "part": "b"})
+                          tags={"kind": "accepted-but-must-be-refused", "clause": clause, "part": "b"}, size=case_size(case))
             return
         factory = cfg.handlers[0]
         try:
@@ -329,27 +344,27 @@ def check_b(case, env, acc):
         except Exception as e:
             acc.cls("b:factory-raises")
             acc.violation("handler-factory-raises", case, core.exc_desc(e), exp or "a handler",
-                          tags={"kind": "handler-factory-raises", "clause": clause, "part": "b"})
+                          tags={"kind": "handler-factory-raises", "clause": clause, "part": "b"}, size=case_size(case))
             return
         env.track(h)
         acc.nt()
         acc.cls("b:accepted:" + type(h).__name__ + ("" if verdict == R.ACCEPT else ":unspec"))
         if not isinstance(h, logging.Handler):
             acc.violation("not-a-handler", case, repr(h), "logging.Handler",
-                          tags={"kind": "not-a-handler", "part": "b"})
+                          tags={"kind": "not-a-handler", "part": "b"}, size=case_size(case))
             return
         if h.level != exp_level:
             acc.violation("handler-level", case, h.level, exp_level,
-                          tags={"kind": "handler-level", "part": "b"})
+                          tags={"kind": "handler-level", "part": "b"}, size=case_size(case))
         if factory() is not h:
             acc.violation("handler-factory-not-memoised", case, "different object", "same object",
-                          tags={"kind": "handler-factory-not-memoised", "part": "b"})
+                          tags={"kind": "handler-factory-not-memoised", "part": "b"}, size=case_size(case))
         if verdict == R.ACCEPT:
             bad = check_file_handler(env, h, exp, env.path(opts["path"]))
             if bad:
                 acc.violation("handler-" + bad[0][0], case, describe_handler(h), exp,
                               tags={"kind": "handler-attribute", "attr": bad[0][0], "clause": clause,
-                                    "part": "b"})
+                                    "part": "b"}, size=case_size(case))
         acc.sample(lambda: {"part": "b", "opts": opts, "level": level, "verdict": verdict,
                             "clause": clause, "handler": describe_handler(h)})
         del h
@@ -442,7 +457,7 @@ def compare_logger(env, lg, case, exp_level, acc, tagpart):
         ok = False
         t = {"kind": kind, "part": "c", "via": tagpart}
         t.update(tags)
-        acc.violation(kind, case, obs, exp, tags=t)
+        acc.violation(kind, case, obs, exp, tags=t, size=case_size(case))
 
     if case["kind"] == "eventlog":
         if lg is not logging.getLogger() or lg.name != "root":
@@ -508,11 +523,11 @@ def check_c(case, env, acc):
                 if verdict == R.ACCEPT:
                     acc.violation("refused-but-documented", case, core.exc_desc(e), "configured",
                                   tags={"kind": "refused-but-documented", "part": "c",
-                                        "via": "configureLoggers"})
+                                        "via": "configureLoggers"}, size=case_size(case))
                 return
             if verdict == R.REFUSE:
                 acc.violation("level-not-rejected", case, "accepted", "refused",
-                              tags={"kind": "level-not-rejected", "part": "c", "via": "configureLoggers"})
+                              tags={"kind": "level-not-rejected", "part": "c", "via": "configureLoggers"}, size=case_size(case))
                 return
             acc.cls("c:configured")
             if case["handlers"]:
@@ -526,11 +541,11 @@ def check_c(case, env, acc):
             acc.cls("c:refused:" + cfg["class"])
             if verdict == R.ACCEPT:
                 acc.violation("refused-but-documented", case, cfg, "accepted",
-                              tags={"kind": "refused-but-documented", "part": "c", "via": "factory"})
+                              tags={"kind": "refused-but-documented", "part": "c", "via": "factory"}, size=case_size(case))
             return
         if verdict == R.REFUSE:
             acc.violation("level-not-rejected", case, "accepted", "refused",
-                          tags={"kind": "level-not-rejected", "part": "c", "via": "factory"})
+                          tags={"kind": "level-not-rejected", "part": "c", "via": "factory"}, size=case_size(case))
             return
         factory = cfg.loggers[0]
         try:
@@ -538,7 +553,7 @@ def check_c(case, env, acc):
         except Exception as e:
             acc.cls("c:factory-raises")
             acc.violation("logger-factory-raises", case, core.exc_desc(e), "a logger",
-                          tags={"kind": "logger-factory-raises", "part": "c"})
+                          tags={"kind": "logger-factory-raises", "part": "c"}, size=case_size(case))
             return
         acc.cls("c:accepted")
         if case["handlers"]:
@@ -553,16 +568,16 @@ def check_c(case, env, acc):
                 lg2 = core.exc_desc(e)
             if lg2 is not lg:
                 acc.violation("second-call-different-logger", case, repr(lg2), repr(lg),
-                              tags={"kind": "second-call-different-logger", "part": "c"})
+                              tags={"kind": "second-call-different-logger", "part": "c"}, size=case_size(case))
             else:
                 again = list(lg.handlers)
                 if len(again) != len(first) or any(a is not b for a, b in zip(again, first)):
                     acc.violation("second-call-changes-handlers", case,
                                   [type(h).__name__ for h in again], [type(h).__name__ for h in first],
-                                  tags={"kind": "second-call-changes-handlers", "part": "c"})
+                                  tags={"kind": "second-call-changes-handlers", "part": "c"}, size=case_size(case))
                 elif lg.level != exp_level:
                     acc.violation("second-call-changes-level", case, lg.level, exp_level,
-                                  tags={"kind": "second-call-changes-level", "part": "c"})
+                                  tags={"kind": "second-call-changes-level", "part": "c"}, size=case_size(case))
         acc.sample(lambda: {"part": "c", "case": case, "level": lg.level,
                             "handlers": [describe_handler(h) for h in lg.handlers]})
         del lg, first
@@ -617,7 +632,7 @@ CL_FLAGS = ["", "-", "0", "+", " ", "#"]
 CL_WIDTH = ["", "9", "*"]
 CL_PREC = ["", ".3", ".*"]
 CL_LEN = ["", "l"]
-FULL_FIELDS_QUICK = ("lineno", "created", "thread", "message")
+FULL_FIELDS_QUICK = ("lineno", "created", "thread", "message", "levelno", "name", "msecs", "args")
 
 FM_CONV = ["", "!r", "!s", "!a", "!x"]
 FM_SPEC = ["", ":", ":s", ":d", ":x", ":X", ":o", ":b", ":c", ":e", ":E", ":f", ":F", ":g", ":G", ":n",
@@ -636,6 +651,13 @@ UNKNOWN_FIELDS = ["nosuch", "extra", "Message", "asctime_", "x1"]
 FORMATTERS = [None, "logging.Formatter", "vz.harness.vzfmt.StylelessFormatter",
               "vz.harness.vzfmt.styleless_formatter", "vz.harness.vzfmt.StyledFormatter"]
 DATEFORMATS = [None, "%H-%M-%S", "%d/%m/%Y at %H"]
+ASCTIME_FORMATS = {
+    "classic": ["%(asctime)s", "%(asctime)-30s", "%(asctime).4s", "%(asctime)r", "x%(asctime)sx"],
+    "format": ["{asctime}", "{asctime!s}", "{asctime!r}", "{asctime:>30}", "{asctime:.4}", "{asctime[0]}"],
+    "template": ["${asctime}", "$asctime", "$asctime.", "x${asctime}x", "$$asctime ${message}"],
+    "safe-template": ["${asctime}", "$asctime", "$asctime.", "x${asctime}x", "$$asctime ${message}",
+                      "${asctime"],
+}
 
 
 def classic_feature(flag, width, prec, ln, typ):
@@ -746,10 +768,10 @@ def d_space(tier, style, field):
             for fmt, feat, hf in d_formats(style, uf, False):
                 for arb in (False, True):
                     yield dcase(style, fmt, arb, "unknown-field" if hf else feat)
-        # date formats
+        # date formats x every way of referring to asctime x formatter factories
         for df in DATEFORMATS:
-            for fmt in (canon(style, "asctime"), canon(style, "asctime") + " " + canon(style, "message"),
-                        canon(style, "message")):
+            for fmt in ASCTIME_FORMATS[style] + [canon(style, "asctime") + " " + canon(style, "message"),
+                                                 canon(style, "message")]:
                 for fk in FORMATTERS:
                     yield dcase(style, fmt, False, "dateformat", fk, df)
         return
@@ -912,6 +934,7 @@ class RegSys:
         self.text = "\n".join(secs)
         self.factories = self._load()
         self.wr = [None] * self.n
+        self.dead_entries = 0
         self.model = R.RegistryModel([k.endswith("-delay") for k in kinds])
 
     def _load(self):
@@ -972,6 +995,7 @@ class RegSys:
                 self.wr[j] = None
         # registry == live, unclosed handlers
         reg = [w() for w in lh._reopenable_handlers]
+        self.dead_entries += sum(1 for h in reg if h is None)
         mine = {}
         for j in range(self.n):
             h = self.handler(j)
@@ -1036,6 +1060,9 @@ def run_sequence(env, kinds, ops, acc, count_traces=True):
                 acc.traces += 1
             if bad:
                 return bad, i, None
+        if s.dead_entries:
+            # tolerated (they are skipped by reopenFiles/closeFiles), but made visible
+            acc.extra["e:dead-registry-entries-seen"] += s.dead_entries
         key = s.key()
         del s
         return None, None, key
@@ -1103,31 +1130,27 @@ def shard_e_seq(kinds, prefix, depth, env, acc):
             acc.cls("e:seq-ok")
 
 
+TRIPLES = [["plain", "rot", "timed"], ["plain-delay", "rot-delay", "timed-delay"],
+           ["plain", "plain", "rot-delay"], ["timed", "rot", "plain-delay"]]
+
+
 def e_configs(tier):
     """-> list of (kinds, depth) for the all-sequences sweep"""
     K = KIND_NAMES
-    out = []
     if tier == "quick":
-        out += [([a], 4) for a in K]
-        out += [([a, b], 4) for a in K for b in K]
-    else:
-        out += [([a], 6) for a in K]
-        out += [([a, b], 5) for a in K for b in K]
-        out += [([a, b], 6) for a, b in (("plain", "rot"), ("rot", "timed"), ("plain", "plain"),
-                                         ("plain-delay", "timed"), ("timed-delay", "rot-delay"))]
-        out += [(list(t), 5) for t in (("plain", "rot", "timed"), ("plain-delay", "rot-delay", "timed-delay"),
-                                       ("plain", "plain", "rot-delay"))]
-        out += [(["plain", "rot", "timed"], 6)]
-    return out
+        return ([([a], 4) for a in K] + [([a, b], 4) for a in K for b in K]
+                + [(t, 4) for t in TRIPLES[:2]])
+    return ([([a], 6) for a in K] + [([a, b], 6) for a in K for b in K]
+            + [(t, 6) for t in TRIPLES[:2]] + [(t, 5) for t in TRIPLES[2:]])
 
 
 def e_bfs_configs(tier):
     K = KIND_NAMES
+    out = [([a], 4) for a in K] + [([a, b], 4) for a in K for b in K]
     if tier == "quick":
-        return [([a], 4) for a in K] + [([a, b], 4) for a in K for b in K]
-    out = [([a], 6) for a in K] + [([a, b], 6) for a in K for b in K]
-    out += [([a, b, c], 6) for a in K for b in K for c in K]
-    return out
+        return out + [(t, 4) for t in TRIPLES]
+    return ([([a], 6) for a in K] + [([a, b], 6) for a in K for b in K]
+            + [([a, b, c], 6) for a in K for b in K for c in K])
 
 
 # ----------------------------------------------------------------------------
@@ -1176,7 +1199,7 @@ def all_shards(tier):
         shards.append(("e-bfs", kinds, depth))
     for kinds, depth in e_configs(tier):
         ops = ops_for(len(kinds))
-        plen = 1 if len(ops) ** depth < 20000 else 2
+        plen = 1 if len(ops) ** depth < 20000 else (2 if len(ops) ** depth < 200000 else 3)
         for prefix in itertools.product(ops, repeat=plen):
             shards.append(("e-seq", kinds, list(prefix), depth))
     return shards
@@ -1198,7 +1221,7 @@ def run(tier):
              "in lock step.  Non-trivial = (b)/(c) accepted configuration with >= 1 handler, (d) format "
              "with >= 1 field reference in its style, (e) sequence with a factory call followed by a "
              "registry operation (distinct cases; shards partition each space)."
-             % (len(R.FIELDS), 2 if quick else 3, "4" if quick else "5-6"),
+             % (len(R.FIELDS), 3, "4" if quick else "6 (5 on two of the four 3-handler configurations)"),
         bounds={"levels": {"names": [n for n, _ in R.LEVEL_TABLE], "integers": [-2, 52]},
                 "logfile_product": {"path": B_PATHS, "max-size": B_MAX, "old-files": B_OLD, "when": B_WHEN,
                                     "interval": B_INT, "delay": B_DELAY, "encoding": B_ENC, "level": B_LEVEL},
